@@ -308,8 +308,15 @@ func runC06(c *Case) {
 			return query("select * from %T order by a, k", true) && query("select * from %T order by b desc, k desc", true)
 		case x < 93:
 			return query("select * from %T order by k desc, a", true)
-		case x < 96:
+		case x < 95:
 			return query("select max(k) from %T", true) && query("select min(k) from %T", true)
+		case x < 98:
+			// key and non-key predicates mixed, in both orders
+			op := ops[r.Intn(5)]
+			if r.Bool() {
+				return query("select * from %T where a = ? and k "+op+" ? order by k", true, valA(), pk())
+			}
+			return query("select * from %T where k "+op+" ? and b is not null and a <> ? order by k", true, pk(), valA())
 		default:
 			return query("select * from %T where a = ? order by k", true, valA())
 		}
